@@ -376,4 +376,63 @@ Proof.
   intros chs r H. destruct (delta_get_fold_add O chs [] r H) as [H1|H1]; [cbn in H1; congruence | exact H1].
 Qed.
 
+Lemma col_upd_key : forall s s' t c T C i f t1 c1 T1 C1,
+  col_upd s s' t c T C i f -> find_table O s t1 = Some T1 -> find_col O (t_cols O T1) c1 = Some C1 ->
+  exists T1' C1', find_table O s' t1 = Some T1' /\ find_col O (t_cols O T1') c1 = Some C1' /\ t_rows O T1' = t_rows O T1.
+Proof.
+  intros s s' t c T C i f t1 c1 T1 C1 [H1 [T' [C' [A1 [A2 [A3 [A4 [A5 [A6 [A7 A8]]]]]]]]]] Hf Hc.
+  name_cases t1 t.
+  - subst t1. assert (T1 = T) by congruence. subst T1. name_cases c1 c.
+    + subst c1. exists T', C'. auto.
+    + exists T', C1. split; [exact A2|]. split; [rewrite A4 by assumption; exact Hc | exact A3].
+  - exists T1, C1. split; [rewrite H1 by assumption; exact Hf|]. split; [exact Hc | reflexivity].
+Qed.
+
+(* ------------------------------------------------------------------------------------------------ *)
+(* a restore inserted at the front of the undo list: a single-column update whose values are those of the start
+   document; whatever the cells held before, they agree with the start document afterwards *)
+
+Definition writes (t c : name) (rows : list Z) : cellset := fun t' c' r => t' = t /\ c' = c /\ In r rows.
+
+Lemma front_one : forall (X : cellset) x s0 t c rows vals T0 C0,
+  seq_ex O X x s0 -> wf_state O s0 ->
+  find_table O s0 t = Some T0 -> find_col O (t_cols O T0) c = Some C0 ->
+  length vals = length rows -> rows <> [] -> (forall r, In r rows -> In r (t_rows O T0)) ->
+  (forall r v, In r rows -> set_val O rows vals r = Some v -> venc O v (col_get O C0 r) = true) ->
+  exists x' o, apply_doc O (BulkUpdateRecord O t rows [(c, vals)]) x = Ok (x', o) /\
+               seq_ex O (fun t' c' r => X t' c' r /\ ~ writes t c rows t' c' r) x' s0.
+Proof.
+  intros X x s0 t c rows vals T0 C0 Hx Hwf Ef0 Ec0 Hlen Hne Hrows Hvals.
+  pose proof (Hx t) as Hnt. rewrite Ef0 in Hnt.
+  destruct (find_table O x t) as [T|] eqn:Ef; [|contradiction]. cbn in Hnt.
+  destruct Hnt as [Hrws Hcols]. pose proof (Hcols c) as Hcc. rewrite Ec0 in Hcc.
+  destruct (find_col O (t_cols O T) c) as [C|] eqn:Ec; [|contradiction]. cbn in Hcc. destruct Hcc as [Hinfo Hcells].
+  assert (Hcid : c <> id_name) by (eapply (wf_col_not_id O); [apply (Hwf _ _ Ef0) | exact Ec0]).
+  assert (Hall : forall r, In r rows -> In r (t_rows O T)) by (intros r Hr; apply Hrws; apply Hrows; exact Hr).
+  destruct (update_upd x t c rows vals T C Ef Ec Hcid Hlen Hne Hall) as [x' [u [Hstep Hupd]]].
+  exists x', (u, []). split; [exact Hstep|].
+  destruct Hupd as [H1 [T' [C' [A1 [A2 [A3 [A4 [A5 [A6 [A7 A8]]]]]]]]]].
+  destruct (Hwf _ _ Ef0) as [_ [_ Hnorm]]. pose proof (Hnorm _ _ Ec0) as Hn0. unfold col_normal in Hn0.
+  intro t1. name_cases t1 t.
+  - subst t1. rewrite A2, Ef0. cbn. split; [rewrite A3; exact Hrws|]. intro c1. name_cases c1 c.
+    + subst c1. rewrite A6, Ec0. cbn. split; [congruence|]. intros r Hr. rewrite A3 in Hr. rewrite A8 by exact Hr.
+      destruct (set_val O rows vals r) as [v|] eqn:Esv.
+      * right. assert (Hrin : In r rows).
+        { destruct (in_dec Z.eq_dec r rows) as [Hi|Hi]; [exact Hi|]. rewrite (set_val_notin O) in Esv by exact Hi. discriminate. }
+        rewrite Hinfo. eapply (venc_trans O L); [apply (vnorm_enc O L); apply (Hvals r v Hrin Esv)|].
+        apply Hn0. apply Hrws. exact Hr.
+      * destruct (Hcells r Hr) as [Hxc|Hv]; [|right; exact Hv]. left. split; [exact Hxc|].
+        intros [_ [_ Hin]]. destruct (set_val_in O rows vals r Hlen Hin) as [v Hv']. congruence.
+    + rewrite A4 by assumption. specialize (Hcols c1).
+      destruct (find_col O (t_cols O T) c1) as [C1|], (find_col O (t_cols O T0) c1) as [C01|]; cbn in *; try exact Hcols.
+      destruct Hcols as [Hi1 Hcells1]. split; [exact Hi1|]. intros r Hr. rewrite A3 in Hr.
+      destruct (Hcells1 r Hr) as [Hxc|Hv]; [|right; exact Hv]. left. split; [exact Hxc|]. intros [_ [Hc _]]. congruence.
+  - rewrite H1 by assumption. specialize (Hx t1).
+    destruct (find_table O x t1) as [T1|], (find_table O s0 t1) as [T01|]; cbn in *; try exact Hx.
+    destruct Hx as [Hr1 Hc1]. split; [exact Hr1|]. intro c1. specialize (Hc1 c1).
+    destruct (find_col O (t_cols O T1) c1) as [C1|], (find_col O (t_cols O T01) c1) as [C01|]; cbn in *; try exact Hc1.
+    destruct Hc1 as [Hi1 Hcells1]. split; [exact Hi1|]. intros r Hr.
+    destruct (Hcells1 r Hr) as [Hxc|Hv]; [|right; exact Hv]. left. split; [exact Hxc|]. intros [Ht _]. congruence.
+Qed.
+
 End Cells.
